@@ -164,6 +164,29 @@ def gen_engine():
         "story/state.rs:state_snapshot:copy"])
     struct_ok = struct == struct_expected
     facts.update({"engine.lookahead_structure_sites": struct, "engine.lookahead_structure_confined": struct_ok})
+    # 14. who WRITES what the host has registered (observers, external bindings, error handler, fallbacks flag):
+    # the registration calls only (Shell/HostFrame.v: no story operation changes the registrations)
+    regw = []
+    for root_, _, fs in os.walk(rt):
+        for f in sorted(fs):
+            if not f.endswith(".rs") or f == "verif.rs":
+                continue
+            rel = os.path.relpath(os.path.join(root_, f), rt)
+            txt = strip_comments(open(os.path.join(root_, f)).read())
+            for pat, tag in ((r"\bvariable_observers\s*\.\s*(insert|remove|get_mut|iter_mut|clear|entry|retain|drain)\(", "observers"),
+                             (r"\bvariable_observers\s*=[^=]", "observers"),
+                             (r"\bexternals\s*\.\s*(insert|remove|get_mut|iter_mut|clear|entry|retain|drain)\(", "externals"),
+                             (r"\bexternals\s*=[^=]", "externals"),
+                             (r"\bon_error\s*=[^=]", "handler"),
+                             (r"\ballow_external_function_fallbacks\s*=[^=]", "fallbacks")):
+                for m in re.finditer(pat, txt):
+                    fn = enclosing_fn(txt, m.start())
+                    regw.append("%s:%s:%s" % (rel, fn, tag))
+    regw = sorted(set(regw))
+    allowed_fns = {"observe_variable", "observe_variables", "remove_variable_observer", "bind_external_function",
+                   "unbind_external_function", "set_error_handler", "set_allow_external_function_fallbacks", "new"}
+    reg_ok = all(x.split(":")[1] in allowed_fns for x in regw) and len(regw) > 0
+    facts.update({"engine.registration_writers": regw, "engine.registrations_written_by_registration_calls": reg_ok})
     b = lambda x: "true" if x else "false"
     out = ("(* GENERATED by tools/gen_engine.py from runtime/src/{story_state.rs,story/variable_observer.rs,"
            "story/control_logic.rs} — do not edit *)\n"
@@ -187,5 +210,8 @@ def gen_engine():
            f"Definition host_calls_confined : bool := {b(host_ok)}.\n"
            "(* the observation batch is opened / closed, and the look-ahead snapshot taken / restored / discarded, by\n"
            "   continue_internal and continue_single_step only (copy_and_start_patching from state_snapshot only) *)\n"
-           f"Definition lookahead_structure_confined : bool := {b(struct_ok)}.\n")
+           f"Definition lookahead_structure_confined : bool := {b(struct_ok)}.\n"
+           "(* what the host has registered (observers, externals, error handler, fallbacks flag) is written by the\n"
+           "   registration calls only *)\n"
+           f"Definition registrations_written_by_registration_calls : bool := {b(reg_ok)}.\n")
     return write_if_changed("theories/Gen/EngineGen.v", out), facts
